@@ -22,19 +22,28 @@ open Verif
     operations (sizes up to 2^62): every report of the model is accepted by the complete judgement —
     the cursor contract (`Cur.step`: exact bytes, exact advance, Peek does not move, failures carry
     a non-nil error and consume nothing, ReadBinary m ≤ n / m < n only with an error, ReadLen =
-    consumed since Release), error provenance (`errAllowed`), and liveness (`liveOk`: the request is
-    served in full) wherever the source's `Credit` demands it: always when the script is `Steady`;
+    consumed since Release; Release(e) for any e), error provenance (`errAllowed`), timeliness
+    (`timely`: a failure only when the data has really run out — nothing already served is missing,
+    and the source's own error only after every productive entry before it handed over ≥ 1 byte), and liveness (`liveOk`: the request is
+    served in full) wherever the source's `Credit` demands it: always when the script is `Steady`,
+    or `SteadyChunks` (arbitrary chunk sizes, final data together with the error, stream ≤ defaultBufSize);
     and for *plain* scripts (every entry error-free with k ≥ K ≥ 1, any chunk sizes) whenever the
     unread entries are still good for the request (`Credit.must`, `Credit.after`). -/
 theorem refines_default (S : Bytes) (script : List Resp) (ops : List ROp)
     (hS : S.length ≤ 4611686018427387904) (hops : ∀ op ∈ ops, op.size ≤ 4611686018427387904) :
     ∃ p, (Cur.init S).judgeRun Facts.maxConsecutiveEmptyReads script
-            (Credit.init (Steady Facts.maxConsecutiveEmptyReads script S.length 0) script)
+            (Credit.init (Steady Facts.maxConsecutiveEmptyReads script S.length 0 ||
+                          SteadyChunks Facts.defaultBufSize script S.length) script)
             ((Rd.newDefault ⟨S, script⟩).trace ops).1 = .ok p := by
-  have hsim : Sim script (Credit.init (Steady Facts.maxConsecutiveEmptyReads script S.length 0) script)
+  have hsim : Sim script (Credit.init (Steady Facts.maxConsecutiveEmptyReads script S.length 0 ||
+        SteadyChunks Facts.defaultBufSize script S.length) script)
       (Cur.init S) (Rd.newDefault ⟨S, script⟩) :=
     ⟨abs_init_default S script, prov_newDefault S script,
-     creditInv_init_default S script _ (fun h => live_newDefault S script h)⟩
+     creditInv_init_default S script _ (fun h => by
+       rcases Bool.or_eq_true_iff.mp h with h | h
+       · exact Or.inl (live_newDefault S script h)
+       · exact live2_newDefault_chunks S script h),
+     by simp [Credit.init, Cur.init, Rd.newDefault]; split <;> simp, tinv_newDefault S script⟩
   obtain ⟨c', cr', h, _⟩ := trace_judge script _ _ _ ops hsim hS hops
   exact ⟨(c', cr'), h⟩
 
@@ -46,7 +55,11 @@ theorem refines_bytes (data : Bytes) (cap : Nat) (ops : List ROp)
     ∃ p, (Cur.init data).judgeRun Facts.maxConsecutiveEmptyReads [] (Credit.init true [])
             ((Rd.newBytes data cap).trace ops).1 = .ok p := by
   have hsim : Sim [] (Credit.init true []) (Cur.init data) (Rd.newBytes data cap) :=
-    ⟨abs_init_bytes data cap hcap hcap2, prov_newBytes data cap, creditInv_init_bytes data cap⟩
+    ⟨abs_init_bytes data cap hcap hcap2, prov_newBytes data cap, creditInv_init_bytes data cap,
+     by
+       have : (Rd.newBytes data cap).src.stream = [] := by unfold Rd.newBytes; split <;> rfl
+       rw [this]; simp [Credit.init],
+     tinv_newBytes data cap⟩
   obtain ⟨c', cr', h, _⟩ := trace_judge [] _ _ _ ops hsim hS hops
   exact ⟨(c', cr'), h⟩
 
@@ -300,10 +313,47 @@ theorem plain_enough (K : Nat) (s : List Resp) (need slen : Nat) (hp : PlainK K 
     Enough Facts.maxConsecutiveEmptyReads s need 0 slen = true :=
   Verif.plain_enough _ K s need 0 slen hp hK h0 hle hc maxEmpty_pos
 
+/-- LIVENESS, chunked sources, per request, EXACT condition: every unread entry has `k ≥ 1` (any sizes),
+    an error sits only on the last entry (final data together with io.EOF / an error — its data
+    counts), no error is pending, and the chunks cover the missing bytes ⇒ the request is served.
+    (`⟨4,none⟩,⟨5,eof⟩` over 9 bytes serves Next(9).) -/
+theorem chunks_serves (r : Rd) (n : Nat) (he : r.err = none) (hc : chunksOk r.src.script = true)
+    (hn : n ≤ r.remaining.length) (hsum : n - (r.buf.length - r.ri) ≤ sumK r.src.script) :
+    r.canServe n = true := by
+  rw [remaining_length r] at hn
+  unfold Rd.canServe
+  simp only [Bool.or_eq_true, decide_eq_true_eq, Bool.and_eq_true]
+  by_cases hfast : n ≤ r.buf.length - r.ri
+  · exact Or.inl hfast
+  · exact Or.inr ⟨by rw [he]; rfl,
+      chunks_enough _ _ _ _ _ hc (by omega) (by omega) hsum maxEmpty_pos⟩
+
+/-- LIVENESS, chunked sources, along histories (`Rd.Live2 = Rd.Live ∨ Rd.LiveChunks`): for a stream
+    that fits the first buffer (`|S| ≤ defaultBufSize`) a `SteadyChunks` script makes the fresh reader
+    live; `Live2` is kept by every operation (`acquire_keeps_live2`, `live2_release`,
+    `Rd.Live2.advance`, `step_live2`) and serves every request that fits.  Exact limit: for longer
+    streams the room offered when the LAST (error-carrying) entry is read may be smaller than what is
+    left, the source's error then precedes the remaining bytes and they are lost — in the real code too. -/
+theorem steady_chunks_live (S : Bytes) (script : List Resp)
+    (h : SteadyChunks Facts.defaultBufSize script S.length = true) :
+    (Rd.newDefault ⟨S, script⟩).Live2 := live2_newDefault_chunks S script h
+
+theorem live2_serves (r : Rd) (n : Nat) (hl : r.Live2) (hn : n ≤ r.remaining.length) :
+    r.canServe n = true := live2_canServe r n hl hn
+
 /-! ## non-vacuity -/
 
+/-- final data together with io.EOF in a chunk bigger than one byte: not `Steady`, but `SteadyChunks` -/
+example : Steady Facts.maxConsecutiveEmptyReads [⟨4, none⟩, ⟨5, some .eof⟩] 9 0 = false := by decide
+example : SteadyChunks Facts.defaultBufSize [⟨4, none⟩, ⟨5, some .eof⟩] 9 = true := by decide
+example : SteadyChunks Facts.defaultBufSize [⟨4096, none⟩] 9 = true := by decide
+example : ((Rd.newDefault ⟨[1,2,3,4,5,6,7,8,9], [⟨4, none⟩, ⟨5, some .eof⟩]⟩).trace
+    [.next 2, .peek 6, .release (some .eof), .next 7, .next 1]).1 =
+    [(.next 2, .bytes [1,2]), (.peek 6, .bytes [3,4,5,6,7,8]), (.release (some .eof), .done),
+     (.next 7, .bytes [3,4,5,6,7,8,9]), (.next 1, .fail (some .eof))] := by decide
+
 /-- a plain script that is not `Steady` (4 entries for 12000 bytes) still carries credit -/
-example : Credit.init false [⟨4096, none⟩, ⟨1048576, none⟩, ⟨7, none⟩, ⟨4096, none⟩] = ⟨7, 28, false⟩ := by
+example : Credit.init false [⟨4096, none⟩, ⟨1048576, none⟩, ⟨7, none⟩, ⟨4096, none⟩] = ⟨7, 28, false, 0⟩ := by
   decide
 example : Steady Facts.maxConsecutiveEmptyReads (List.replicate 4 ⟨1048576, none⟩) 12000 0 = false := by
   decide
